@@ -8,6 +8,10 @@ def Q(prop, qid, src, defs=(), unwind=None, unwindset=(), tiers=('quick', 'thoro
     d.update(kw)
     QUERIES.append(d)
 
+def ML(n, cnt=45):
+    """unwindset entries giving every loop in main (including do{}while(0) macro bodies) the bound n"""
+    return ['main.%d:%d' % (i, n) for i in range(cnt)]
+
 # ------------------------------------------------------------------ C13 minify
 PROPS['C13'] = dict(
     level='model_checking',
@@ -72,3 +76,16 @@ for M in (2, 4):
     for E in (0, 2):
         QP('top.E%d.noend.M%d' % (E, M), 'harness/parse_top.c', props=('C01', 'C10'), defs=['-DM=%d' % M, '-DENTRY=%d' % E, '-DWITH_END=0'], unwind=M + 3, cost=M,
            stub=['parse_value'], functions=TOPFN, unwindset=['cJSON_Delete.0:2', 'cJSON_Delete:2'])
+
+# ------------------------------------------------------------------ print on symbolic trees (C04, C05, C09, C07, C08, C14)
+PRFN = ['cJSON_PrintPreallocated', 'cJSON_Print', 'cJSON_PrintUnformatted', 'cJSON_PrintBuffered', 'print', 'print_value', 'print_array', 'print_object', 'print_string_ptr', 'print_number', 'ensure', 'update_offset']
+def QM(props, qid, src, **kw):
+    for p in props:
+        kw2 = dict(kw); kw2['defs'] = list(kw.get('defs', [])) + ['-DVF_ONLY=%d' % int(p[1:])]
+        Q(p, qid, src, **kw2)
+QM((), 'prealloc.D1K1S1', 'harness/print_tree.c', defs=['-DAPI=0', '-DTD=1', '-DTK=1', '-DTS=1', '-DCAP=40'], unwind=8, unwindset=['memcmp.0:42', 'main.0:42','main.1:42','main.2:42','main.3:42'], cost=20, functions=PRFN)
+for what, nm in ((0, 'arr'), (1, 'obj')):
+    for nc in (0, 1, 2, 3):
+        QM(('C09', 'C05', 'C04'), 'p%s.NC%d' % (nm, nc), 'harness/print_arr.c', defs=['-DWHAT=%d' % what, '-DNC=%d' % nc, '-DN=%d' % (24 if what == 0 else 40), '-DTS=1'],
+           unwind=5, unwindset=ML(42) + ['strlen.0:12', 'vf_sprintf.3:26'], stub=['print_value'] + (['print_string_ptr'] if what else []), cost=10 + nc,
+           tiers=('quick', 'thorough') if nc <= 2 else ('thorough',), functions=['print_array', 'print_object', 'print_string_ptr', 'ensure', 'update_offset'])
